@@ -3,17 +3,60 @@ package gradtrack
 import "github.com/sahandsafizadeh/qeep/tensor/internal/tensor"
 
 func BackPropagate(t tensor.Tensor) (err error) {
-	return backward(startEdge(t))
+	if !gradContextOf(t).tracked {
+		return nil
+	}
+
+	order := backwardOrder(t)
+	for _, u := range order {
+		gradContextOf(u).bpdirty = true
+	}
+
+	// neutral tensor; same shape, all ones
+	err = accumulateGrad(gradContextOf(t), toOnes(t))
+	if err != nil {
+		return
+	}
+
+	for _, u := range order {
+		for _, e := range gradContextOf(u).backEdges {
+			err = backward(e)
+			if err != nil {
+				return
+			}
+		}
+	}
+
+	return nil
 }
 
-func startEdge(t tensor.Tensor) (edge *backwardEdge) {
-	return &backwardEdge{
-		target: t,
-		gradFn: func() (tensor.Tensor, error) {
-			// neutral tensor; same shape, all ones
-			return toOnes(t), nil
-		},
+// backwardOrder lists every tracked tensor reachable from t exactly once,
+// each one before all the tensors it was computed from.
+func backwardOrder(t tensor.Tensor) (order []tensor.Tensor) {
+	visited := make(map[*GradContext]bool)
+
+	var visit func(tensor.Tensor)
+	visit = func(u tensor.Tensor) {
+		gctx := gradContextOf(u)
+		if !gctx.tracked || visited[gctx] {
+			return
+		}
+
+		visited[gctx] = true
+		for _, e := range gctx.backEdges {
+			visit(e.target)
+		}
+
+		order = append(order, u)
 	}
+
+	visit(t)
+
+	for i, j := 0, len(order)-1; i < j; i, j = i+1, j-1 {
+		order[i], order[j] = order[j], order[i]
+	}
+
+	return order
 }
 
 func backward(edge *backwardEdge) (err error) {
@@ -21,8 +64,6 @@ func backward(edge *backwardEdge) (err error) {
 
 	if !gctx.tracked {
 		return nil
-	} else {
-		gctx.bpdirty = true
 	}
 
 	grad, err := edge.gradFn()
@@ -30,19 +71,7 @@ func backward(edge *backwardEdge) (err error) {
 		return
 	}
 
-	err = accumulateGrad(gctx, grad)
-	if err != nil {
-		return
-	}
-
-	for _, e := range gctx.backEdges {
-		err = backward(e)
-		if err != nil {
-			return
-		}
-	}
-
-	return nil
+	return accumulateGrad(gctx, grad)
 }
 
 func accumulateGrad(gctx *GradContext, grad tensor.Tensor) (err error) {
